@@ -73,6 +73,7 @@ type CertOpt struct {
 	KeyIdx     int
 	KeyUsage   x509.KeyUsage // 0 with NoKeyUsage=false => default for role
 	NoKeyUsage bool
+	NoBC       bool // omit basicConstraints
 	ExtKeyUsage []x509.ExtKeyUsage
 	NoSKI      bool
 	NoAKI      bool
@@ -121,7 +122,7 @@ func Issue(parent *Ident, o CertOpt) *Ident {
 		NotBefore:             nb,
 		NotAfter:              na,
 		IsCA:                  o.IsCA,
-		BasicConstraintsValid: true,
+		BasicConstraintsValid: !o.NoBC,
 		CRLDistributionPoints: o.CDP,
 		OCSPServer:            o.OCSP,
 		ExtKeyUsage:           o.ExtKeyUsage,
